@@ -31,6 +31,9 @@ EXPECTED_PROBES = ("failed_parse_then_reuse", "option_set_then_other_format", "l
 def gen(S, tier):
     c = S("config")
     pool = [fmtgen.gen_spec(c) for _ in range(c.randint(2, 4))]
+    if c.chance(0.4):
+        # a sibling of an existing format: same names, other flags / short names / aliases
+        pool.append(fmtgen.sibling(c, c.pick(pool)))
     w = S("workload")
     f = S("faults")
     p_break = f.pick([0.0, 0.2, 0.4, 0.7])
